@@ -249,6 +249,9 @@ class Built:
           # harness releases it (Built.release), after which it just returns
           log.add('hang_unkillable', pid, inv)
           try:
+            with vc.cv:          # the virtual clock must not wait for this body
+              vc.hung.add(threading.current_thread())
+              vc.cv.notify_all()
             release.wait(60)
           except BaseException:  # pylint: disable=broad-except
             pass
